@@ -452,7 +452,7 @@ impl TestCaseConfig {
                 output.push(format!(
                     "wait: {{timeout: {}, path: {}}}",
                     duration,
-                    path.to_string_lossy(),
+                    yaml_flow_path(&path.to_string_lossy()),
                 ))
             } else {
                 output.push(format!("wait: {}", duration))
@@ -461,8 +461,7 @@ impl TestCaseConfig {
         if !self.environment.is_empty() {
             let mut envvars = vec![];
             for (key, value) in self.environment.iter() {
-                // TODO: this will bereak break if the value contains double quotes => use `quote-string` crate?
-                envvars.push(format!("{}: \"{}\"", key, value))
+                envvars.push(format!("{}: {}", key, yaml_quoted(value)))
             }
             output.push(format!("environment: {{{}}}", envvars.join(", ")));
         }
@@ -472,6 +471,25 @@ impl TestCaseConfig {
     pub fn get_skip_document_code(&self) -> i32 {
         self.skip_document_code
             .unwrap_or(DEFAULT_SKIP_DOCUMENT_CODE)
+    }
+}
+
+/// Renders the value as double-quoted YAML scalar (a JSON string is one), so
+/// that quotes, backslashes, colons, braces etc survive the one-line form
+fn yaml_quoted(value: &str) -> String {
+    serde_json::to_string(value).unwrap_or_else(|_| format!("\"{}\"", value))
+}
+
+/// Renders plain looking paths as they are and quotes everything else
+fn yaml_flow_path(path: &str) -> String {
+    let plain = path.contains('/')
+        && path
+            .chars()
+            .all(|ch| ch.is_ascii_alphanumeric() || "/._-".contains(ch));
+    if plain {
+        path.to_string()
+    } else {
+        yaml_quoted(path)
     }
 }
 
